@@ -32,14 +32,14 @@ class _T(ast.NodeTransformer):
         f = node.func
         if (isinstance(f, ast.Attribute) and f.attr == 'join' and isinstance(f.value, ast.Constant)
                 and isinstance(f.value.value, bytes) and len(node.args) == 1 and not node.keywords):
-            REWRITES.append('%s:%d join' % (self.path.replace('/repo/src/exabgp/', ''), node.lineno))
+            REWRITES.append('%s:%d join' % (self.path.split('/src/exabgp/')[-1], node.lineno))
             return ast.copy_location(ast.Call(ast.Name('__sx_join__', ast.Load()), [f.value] + node.args, []), node)
         return node
 
     def visit_BinOp(self, node):
         self.generic_visit(node)
         if isinstance(node.op, ast.Mod) and isinstance(node.left, ast.Constant) and isinstance(node.left.value, bytes):
-            REWRITES.append('%s:%d bmod' % (self.path.replace('/repo/src/exabgp/', ''), node.lineno))
+            REWRITES.append('%s:%d bmod' % (self.path.split('/src/exabgp/')[-1], node.lineno))
             return ast.copy_location(ast.Call(ast.Name('__sx_bmod__', ast.Load()), [node.left, node.right], []), node)
         return node
 
